@@ -232,8 +232,12 @@ template <class E, class Kernel> struct PolyRun {
         E::PolyKernel::globalCtx() = &ctx;
         tree.reset(new typename E::PolyTree(*cfg, c.parts, c.blockSize, c.oneGroupPerParent));
     }
-    void reference(bool crossCheck, Result& res) {
-        std::array<uint64_t, D> bw; bw.fill(0);
+    // imagesLo..imagesHi: interval of periodic images per dimension (the periodic ordering alone, with upper
+    // level 1, covers the 3^D nearest images; the top tree extends it)
+    void reference(bool crossCheck, Result& res, long imagesLo = (E::Space::IsPeriodic ? -1 : 0), long imagesHi = (E::Space::IsPeriodic ? 1 : 0)) {
+        std::array<uint64_t, D> bw;
+        bw.fill(uint64_t(2) * uint64_t((1L << (cfg->getTreeHeight() - 1)) * 4));
+        if (imagesLo != 0 || imagesHi != 0) { expected = directSum<D, E::DEG>(ctx, true, imagesLo, imagesHi, bw); return; }
         if (N <= 1500) {
             expected = directSum<D, E::DEG>(ctx, true, 0, 0, bw);
             if (crossCheck && N <= 300) { const auto m = directSumMoments<D, E::DEG>(ctx); if (m != expected) res.fail("harness:reference-disagree", "pairwise and moment references differ"); }
